@@ -202,7 +202,7 @@ def spec_copy(wd):
 # replay workers
 
 def replay(binary, wd, tlc_out, tables="plain", adapters="go", workers=None, per_world=400, timeout=3000,
-           stride_extra=1, label="replay", rotate=False, seed=1):
+           stride_extra=1, label="replay", rotate=False, seed=1, test="TestReplay", extra_env=None):
     """Run K replay workers over the behaviours of one TLC output file."""
     workers = workers or NCPU
     procs = []
@@ -214,8 +214,9 @@ def replay(binary, wd, tlc_out, tables="plain", adapters="go", workers=None, per
         env = dict(os.environ, VERIF_TLC_OUT=tlc_out, VERIF_STRIDE=str(workers * stride_extra), VERIF_OFFSET=str(i),
                    VERIF_RESULT=res, VERIF_TABLES=tables, VERIF_ADAPTERS=adapters, VERIF_DIR=d,
                    VERIF_PER_WORLD=str(per_world), VERIF_ROTATE="1" if rotate else "0", VERIF_SEED=str(seed))
+        env.update(extra_env or {})
         lf = open(os.path.join(wd, f"{label}_{i}.log"), "w")
-        p = subprocess.Popen([binary, "-test.run", "^TestReplay$", "-test.timeout", "0"], env=env, stdout=lf,
+        p = subprocess.Popen([binary, "-test.run", "^%s$" % test, "-test.timeout", "0"], env=env, stdout=lf,
                              stderr=subprocess.STDOUT, cwd=wd)
         procs.append((p, res, lf, d))
     summaries, results, crashes = [], [], []
